@@ -23,9 +23,15 @@ CHECKS = {
  "C08": ("model_checking", "explicit-state BFS over the subset lattice with the real delete as transition function; invariant = model table + real fresh build incl. stored counts",
          "From the full file every non-empty proper subset is deleted, from every reached state again, so each of the 2^n-1 sample sets is reached along every chain and compared with a fresh build; the CLI family enumerates both ways of passing names, in-place/-o and the refusals (file must stay byte-identical).",
          "Canonical (row-sorted) states; CLI family is an enumeration of routes, not a search.", "DESIGN.md §5 C08"),
+ "C09": ("exploration", "bounded exhaustive configuration enumeration (all 30 k x strand modes x input families incl. 'fits in 64 bits') through the CLI, every subcommand on the saved file vs model",
+         "The width decision is a function of (k, the stored k-mers); enumerating every k with families that do and do not fit in 64 bits, and running every subcommand plus merges in both orders on the saved file, decides width independence; stored fields are read back with an independent decoder.",
+         "Model stands in for the in-memory data; ska lo at k=33/35 is exercised under C17.", "DESIGN.md §5 C09"),
  "C10": ("model_checking", "explicit-state BFS (depth-bounded, full-content state de-duplication) with the real merge/delete/weed/filter/reload as transitions; invariant = every observer agrees with a reference model that has no hidden state",
          "The state carries the hidden fields, the model does not: any dependence of a later align/map/distance/nk on history shows up as an observer disagreement in some reached state. Histories to depth 3 (quick) / 5 (thorough) from three start tables, ~140 actions per state.",
          "Depth-bounded, one k (7) and three start tables; canonicalisation guarded by CLI re-execution of the longest paths (traces_validated_against_impl).", "DESIGN.md §5 C10"),
+ "C13": ("exploration", "bounded exhaustive enumeration of weed sets (all windows k..k+4 on a grid, unions, strand/N/case variants) on built files, real weed vs model, plus partition/idempotence relations",
+         "Weed-set membership is per k-mer; every window of every sample record (including records of length exactly k) in both orientations, with --reverse on and off, at both widths and the 31/33 boundary decides exact removal, unchanged surviving rows and counts, and idempotence.",
+         "--min-freq 0 only; built start files come from the real build.", "DESIGN.md §5 C13"),
  "C14": ("exploration", "bounded exhaustive enumeration of unambiguous tables x thresholds x flags, real distance output vs model, byte-exact",
          "All tables of up to 3 rows over {A,C,G,-}^n for n=2..4, pattern rows to 12 samples, all thresholds, both ambiguity flags, sample permutations: Hamming/Jaccard integers and the bookkeeping of pre-filtered constant sites are decided per pair on every table.",
          "Same formatting of the same single division as the CLI; threads=1 (thread variation is C11's).", "DESIGN.md §5 C14"),
